@@ -29,6 +29,8 @@ type Witness struct {
 	Pos  token.Pos
 	What string
 	Via  *Witness
+	// Append: the write can only reach the spare capacity behind the operand's length (an append)
+	Append bool
 }
 
 func (w *Witness) Chain(p *load.Prog) string {
@@ -73,6 +75,8 @@ func (s set) keys() []string {
 type Summary struct {
 	Fn  *ssa.Function
 	Wr  map[string]*Witness // "P<i>" or "G:<name>" → how
+	// OtherWr: keys of Wr with at least one write that is not an append into spare capacity
+	OtherWr map[string]bool
 	Ret []set               // per result: "P<i>", "G:<name>", "Fresh"
 	Esc map[string]set      // "P<i>"/"G:.." → objects whose pointers may be stored into it
 	// Unmodelled external callees with pointer-like operands (fail closed).
@@ -155,7 +159,7 @@ func Run(p *load.Prog) *Analysis {
 	fns := p.ModFuncs()
 	for _, f := range fns {
 		nres := f.Signature.Results().Len()
-		s := &Summary{Fn: f, Wr: map[string]*Witness{}, Esc: map[string]set{}, Unmodelled: map[string]*Witness{}, GlobalsRead: set{}}
+		s := &Summary{Fn: f, OtherWr: map[string]bool{}, Wr: map[string]*Witness{}, Esc: map[string]set{}, Unmodelled: map[string]*Witness{}, GlobalsRead: set{}}
 		for i := 0; i < nres; i++ {
 			s.Ret = append(s.Ret, set{})
 		}
@@ -205,6 +209,7 @@ type fstate struct {
 	changed  bool
 	nsite    map[ssa.Value]string
 	tuples   map[tupleKey]set
+	escTo    map[string]set // local allocation site -> parameters into whose memory its address was stored
 }
 
 func (st *fstate) site(v ssa.Value, kind string) string {
@@ -288,6 +293,10 @@ func (st *fstate) write(s set, deep bool, w *Witness) {
 				st.sum.Wr[k] = w
 				st.changed = true
 			}
+			if !w.Append && !st.sum.OtherWr[k] {
+				st.sum.OtherWr[k] = true
+				st.changed = true
+			}
 		}
 	}
 }
@@ -308,6 +317,15 @@ func (st *fstate) store(addr, val set) {
 				vv := v
 				if !strings.HasPrefix(v, "P") && !strings.HasPrefix(v, "G:") {
 					vv = "Fresh"
+					if strings.HasPrefix(k, "P") {
+						if st.escTo == nil {
+							st.escTo = map[string]set{}
+						}
+						if st.escTo[v] == nil {
+							st.escTo[v] = set{}
+						}
+						st.escTo[v][k] = true
+					}
 				}
 				if !e[vv] {
 					e[vv] = true
@@ -330,6 +348,11 @@ func (st *fstate) load(addr set) set {
 		if strings.HasPrefix(k, "P") {
 			out[k] = true // anything reachable from a parameter is labelled with it
 			continue
+		}
+		if strings.HasPrefix(k, "G:") {
+			// what a package-level variable holds was stored by another function (an initialiser): this function's
+			// own contents map does not know it, so what is loaded is labelled with the variable itself
+			out[k] = true
 		}
 		out.addAll(st.contents[k])
 	}
@@ -539,6 +562,14 @@ func (st *fstate) instr(in ssa.Instruction) {
 					kk = "Fresh"
 					// an object allocated here whose address was also stored into package-level state (an object
 					// handed to a pool, a memo): the result shares memory with that state
+					// likewise for an object whose address was also stored into memory reachable from a parameter (a memo
+					// kept in the receiver): the result shares memory with what the parameter now holds
+					for pk := range st.escTo[k] {
+						if !st.sum.Ret[i][pk] {
+							st.sum.Ret[i][pk] = true
+							st.changed = true
+						}
+					}
 					for g := range st.contents {
 						if strings.HasPrefix(g, "G:") && st.region(set{g: true})[k] {
 							if !st.sum.Ret[i][g] {
